@@ -78,6 +78,15 @@ def main(argv):
     signal = _limits()
     result = dict(spec=spec, violations=[], errors=[], import_error=None)
     ctx = Ctx()
+    cov = None
+    if os.environ.get("RV_COVERAGE"):       # development aid, see tools/
+        import coverage
+        cov = coverage.Coverage(
+            data_file=os.path.join(os.environ["RV_COVERAGE"],
+                                   "cov.%s.%d" % (spec["prop"],
+                                                  spec["shard"])),
+            include=[os.path.join(core.REPO, "rig", "*")])
+        cov.start()
     try:
         core.use_repo()
         mod = load_prop(spec["prop"])
@@ -169,6 +178,9 @@ def main(argv):
                     s = dict(cls=cls, idx=idx, outcome=outcome,
                              case_truncated=txt[:6000])
                 ctx.samples.append(s)
+    if cov is not None:
+        cov.stop()
+        cov.save()
     if reach:
         reach.stop()
         result["anchors"] = reach.report()
